@@ -128,7 +128,7 @@ func checkC14(p *Prog, l *Ledger) {
 	checkNodeKindTests(p, l, "C14/S4-no-syntactic-rewrites")
 	// a call: callee first, then every argument once, left to right, into a list of this evaluation's own, and exactly
 	// that list reaches the callee (rule shared with C04)
-	l.As(map[string]string{"C04/S3-call-protocol": "C14/S2-call-arguments"}, func() { checkCallProtocol(cs, l) })
+	l.As(map[string]string{"C04/S3-call-protocol": "C14/S2-call-arguments", "C04/S3-who-invokes": "C14/S2-call-arguments/who-invokes"}, func() { checkCallProtocol(cs, l) })
 	// ---- S1
 	n := 0
 	for _, t := range cs.Order {
